@@ -389,6 +389,15 @@ func (cs *Contracts) parseContractFile(file string, repo bool, pkgPath string) e
 					}
 					c.Callee = rest[:i]
 					rest = strings.TrimSpace(rest[i+1:])
+					if word == "tolerates" {
+						// tolerates CALLEE#N: condition over _err
+						c.Callee = strings.TrimSuffix(c.Callee, ":")
+						c.Expr = rest
+						c.Label = "tolerates." + c.Callee
+						cur.Clauses = append(cur.Clauses, c)
+						last = &cur.Clauses[len(cur.Clauses)-1].Expr
+						continue
+					}
 				}
 				if word == "returns" || word == "fswrite" || word == "fsread" || word == "havocs" || word == "ghost" || word == "sets" || word == "modifies" {
 					c.Expr = rest
